@@ -12,7 +12,7 @@ from .common import gen_faults, gen_tape
 
 PROP = "C03"
 JUDGE = ("C03.",)
-PROGRAMS = ["calltree"]
+PROGRAMS = ["calltree", "genctx"]
 RUNS = {"quick": 3000, "thorough": 150000}
 
 FNS = ["A", "B", "C", "D"]
@@ -115,7 +115,28 @@ def tree_tape(rng, n, favoured, p_continue, p_raise=0.3):
     return out
 
 
+def gen_generator_paths(rng, tier):
+    """Call paths through generators: a generator is started by one caller and advanced by another
+    (the driver actor D, or the top level); what its body calls is matched against the activations
+    that are executing *then*.  The histories are those of the C09 lens, judged as call paths.
+    (Delegation with ``yield from`` is left out: open finding KF-C09-3.)"""
+    from . import c05, c09
+
+    if rng.random() < 0.5:
+        # ... or: probes come and go at top level while a generator is suspended, and the driver
+        # calls the functions the generator calls
+        sc = c05.gen_generator_history(rng, tier)
+    else:
+        sc = c09.gen(rng, tier, quarantine=("no-yield-from", "no-failing-subscriber"))
+    for op in sc["ops"]:
+        if op["op"] == "mk":
+            op["inv"] = "C03.embeddings"
+    return sc
+
+
 def gen(rng, tier, quarantine=(), total=False, inv="C03.embeddings"):
+    if not total and inv == "C03.embeddings" and "no-generator-paths" not in quarantine and rng.random() < 0.1:
+        return gen_generator_paths(rng, tier)
     ops = []
     nprobes = rng.choice([1, 1, 2])
     favoured = set()
